@@ -93,6 +93,15 @@ func derefUses(v ssa.Value) []ssa.Instruction {
 				/* Bound method value m := v.M → dereferenced when called; treat the creation as a use. */
 				if f, ok := x.Fn.(*ssa.Function); ok && strings.HasSuffix(f.Name(), "$bound") {
 					out = append(out, x)
+				} else if ok {
+					/* Captured (by value) by a function literal which
+					dereferences it: the literal can run any time from
+					its creation on, so that is where v must be good. */
+					for k, b := range x.Bindings {
+						if b == v && k < len(f.FreeVars) && 0 != len(derefUses(f.FreeVars[k])) {
+							out = append(out, x)
+						}
+					}
 				}
 			case *ssa.ChangeType:
 				walk(x)
